@@ -237,3 +237,6 @@ def run(rep):
     from common import include
     include(rep, 'c14', ('C14.state-forwarding',), 'state-forwarding')
     rep.analysed = {'function': q, 'template': ot[1], 'helpers': n_h}
+    # the section reaches the assembled output unconditionally (shared rule, lib/sections.py)
+    from sections import check_wiring
+    check_wiring(rep, 'C12.section-wiring', ['OverrideConstants', 'VertexEntry <', 'FragmentEntry <'], 'override-sections')
